@@ -632,8 +632,8 @@ func handleInputStream(s *Session, handler Handler) (err error) {
 	if typ == string(stanza.ResultIQ) || typ == "error" {
 		s.sentStanzaMutex.Lock()
 		readerChan, ok := s.sentStanzas[id]
-		s.sentStanzaMutex.Unlock()
 		verifYield("serve.lookup", id)
+		s.sentStanzaMutex.Unlock()
 		emptySpace := xml.Name{Local: start.Name.Local}
 		if ok && readerChan.stanzaName == start.Name || readerChan.stanzaName == emptySpace {
 			inner := xmlstream.Inner(r)
@@ -1080,14 +1080,14 @@ func (s *Session) sendResp(ctx context.Context, id string, payload xml.TokenRead
 		ctx:        ctx,
 		done:       done,
 	}
-	s.sentStanzaMutex.Unlock()
 	verifYield("resp.registered", id)
+	s.sentStanzaMutex.Unlock()
 	defer func() {
 		s.sentStanzaMutex.Lock()
 		delete(s.sentStanzas, id)
+		verifYield("resp.deregistered", id)
 		s.sentStanzaMutex.Unlock()
 		close(done)
-		verifYield("resp.deregistered", id)
 	}()
 
 	err := s.SendElement(ctx, payload, start)
